@@ -2,6 +2,8 @@
 import PflDrv.PDA
 import Pfl.Model.FST
 import Pfl.Oracle.FstRel
+import Pfl.Model.ToFST
+import PflDrv.FA
 open Lean Pfl
 namespace PflDrv
 
@@ -21,6 +23,13 @@ def jFST (T : FST String) : Json :=
     ("delta", jList (fun t => Json.arr #[jStr t.1, jOpt jStr t.2.1, jStr t.2.2.1, jList jStr t.2.2.2]) T.delta)]
 
 def fstHandle (op : String) (j : Json) : R Json := do
+  if op == "fst.ofFA" then   -- model of FiniteAutomaton.to_fst; states are printed as their codes
+    let A ← asENFA (← field j "A")
+    let names ← asStrList (← field j "symNames")
+    let T := A.toFST (fun k => names.getD k "?")
+    return jFST { states := T.states.map toString, inputs := T.inputs, outputs := T.outputs,
+                  starts := T.starts.map toString, finals := T.finals.map toString,
+                  delta := T.delta.map fun t => (toString t.1, t.2.1, toString t.2.2.1, t.2.2.2) }
   let T ← asFST (← field j "T")
   match op with
   | "fst.translate" =>
